@@ -38,6 +38,20 @@ MAX_PATHS_FN = 4000
 MAX_PATHS_MAIN = 6000
 BUDGET_S = 22.0
 LOOP_LIMIT = 2
+POS_FIELDS = ('loc', 'line_no', 'file')
+
+
+def posof(o):
+    """the token whose position (file, line, loc) a token object has because it is a whole-struct copy of it and no position field was
+    stored since; None for a token that is no such copy"""
+    m = o.meta.get('c18_posof') if isinstance(o, Obj) else None
+    if not m:
+        return None
+    src, snap = m
+    for f in POS_FIELDS:
+        if f in o.fields and o.fields[f] is not snap.get(f):
+            return None
+    return src
 
 
 def _base_of(t):
@@ -67,6 +81,7 @@ class DirInterp(CutInterp):
         CutInterp.__init__(self, program, unit, cfg)
         self.headcut = headcut
         self.posfields = posfields
+        self.eof_kind = cfg.get('eof_kind')
 
     def exec_loop(self, s, _unused, cond, inc, body, env):
         st = self._st()
@@ -94,12 +109,28 @@ class DirInterp(CutInterp):
             return self._cut_loop(s, s.inner[1], None, s.inner[0], env, do=True)
         return Interp.exec_do(self, s, env)
 
+    def copy_obj(self, o):
+        """a whole-struct copy of a token has the position (file, line, loc) of the token it is copied from"""
+        c = Interp.copy_obj(self, o)
+        if o.tname == 'Token':
+            c.meta['c18_posof'] = (o.meta.get('c18_posof') or (o, None))[0], dict((f, o.fields.get(f)) for f in POS_FIELDS)
+        return c
+
     def e_BinaryOperator(self, n, env):
         v = Interp.e_BinaryOperator(self, n, env)
         if n.opcode == '=':
             t = n.inner[0].strip()
             if t.kind == 'MemberExpr' and t.inner:
                 rec = _base_of(t.inner[0].dtype or t.inner[0].type) or (t.inner[0].dtype or t.inner[0].type or '').replace('struct ', '').strip()
+                if rec == 'Token' and t.name == 'next' and self.eof_kind is not None:
+                    w = self.settle(v) if isinstance(v, View) else v
+                    if isinstance(w, Obj) and posof(w) is not None:
+                        k = w.fields.get('kind')
+                        k = self.settle(k) if isinstance(k, View) else k
+                        if isinstance(k, int) and k == self.eof_kind:
+                            fd = n.enclosing('FunctionDecl')
+                            self.ctx.emit('c18ev', 'eol', '%s:%s:end-marker-positioned-on-the-line/EOF' % (self.unit.name, fd.name if fd is not None else '?'),
+                                          '%s:%d' % (self.unit.name, n.line), w, 'the end-of-list token')
                 if (rec, t.name) in self.posfields:
                     fd = n.enclosing('FunctionDecl')
                     self.ctx.emit('c18ev', 'store', '%s:%s:position-kept-for-a-diagnostic/%s.%s' % (self.unit.name, fd.name if fd is not None else '?', rec, t.name),
@@ -213,7 +244,7 @@ class Lines:
                 cuts[n] = {'self': self.h_self, 'inline': self.h_inline, 'summ': self.h_summ, 'cut': self.h_cut}[k]
         for n in self.spelling:
             cuts[n] = self.h_equal
-        cfg = {'inline_other_units': False, 'cut': cuts, 'loop_limit': LOOP_LIMIT, 'assume': assume}
+        cfg = {'inline_other_units': False, 'cut': cuts, 'loop_limit': LOOP_LIMIT, 'assume': assume, 'eof_kind': self.EOF}
         return DirInterp(self.P, self.u, cfg, headcut, self.posfields)
 
     def _check_budget(self):
@@ -417,6 +448,17 @@ class Lines:
                             self._assert_field(it, o_, 'kind', self.EOF)
                     memo[d] = o_
                     return o_
+            if d[0] == 'copy':
+                if d in memo:
+                    return memo[d]
+                src = inst(d[1])
+                c = Obj('Token', lazy=True, label=ctx.fresh('derived:' + name))
+                if isinstance(src, Obj):
+                    c.meta['c18_posof'] = (src, {})
+                if d[2]:
+                    c.fields['kind'] = self.EOF
+                memo[d] = c
+                return c
             return Obj('Token', lazy=True, label=ctx.fresh('derived:' + name))
         for (typ, key, where, d, extra) in o.events:
             ctx.emit('c18ev', typ, key, where, inst(d), extra)
@@ -500,6 +542,10 @@ class Lines:
                     ch = self.chain(it, root)
                     fx = tuple((j, self.ends_line(it, ch[j])) for j in range(k + 1) if self.ends_line(it, ch[j]))
                     return ('chain', rk, ri, k, fx)
+                src = posof(v) if isinstance(v, Obj) else None
+                if src is not None and id(src) in index:
+                    d = desc(src)
+                    return ('copy', d, self.known(it, v, 'kind') == self.EOF)
                 return ('other',)
             o = Outcome()
             o.events = tuple((e[1], e[2], e[3], desc(e[4]), e[5]) for e in ctx.events if e[0] == 'c18ev')
@@ -602,8 +648,11 @@ class Lines:
                 typ, key, where, v, extra = e[1:6]
                 v = it.settle(v) if isinstance(v, View) else v
                 head, _, tail = key.rpartition('/')
-                key = '%s/#%s/%s' % (head, re.sub(r'[^A-Za-z0-9_]+', '-', dname), tail)
+                if typ != 'eol':          # the end marker of a line's token list is one construct whatever the directive
+                    key = '%s/#%s/%s' % (head, re.sub(r'[^A-Za-z0-9_]+', '-', dname), tail)
                 s = sites.setdefault(key, {'where': where, 'type': typ, 'what': extra, 'directive': dname, 'n': 0, 'behind': 0, 'other': 0, 'ex': None, 'on': None})
+                if isinstance(v, Obj) and id(v) not in pos and posof(v) is not None and id(posof(v)) in pos:
+                    v = posof(v)          # a copy of a token of the directive's sequence is where that token is
                 if isinstance(v, Obj) and id(v) in pos:
                     k = pos[id(v)]
                     cross = [(j, self.ends_line(it, ch[j])) for j in range(1, k + 1) if self.ends_line(it, ch[j])]
@@ -626,6 +675,8 @@ def _show_sig(sig):
         if x[0] == 'chain':
             e = dict(x[4]).get(x[3])
             return '%s%d+%d%s' % (x[1], x[2], x[3], {'bol': ' (begins a line)', 'eof': ' (end of input)'}.get(e, ''))
+        if x[0] == 'copy':
+            return 'a copy of ' + d(x[1])
         return x[0]
     ret, rests, evs, term = sig
     parts = []
@@ -654,6 +705,10 @@ def r189(P, rep):
             msg = ('the diagnostic `%s` of a `#%s` directive is located, on all %d explored paths that reach it from the directive loop of %s, at a token BEHIND the end of the directive\'s line '
                    '(%s; the line ends at %s): the message names the line -- after the last directive of a header, the file -- of whatever follows the directive, not the directive' % (
                        s['what'], s['directive'], s['n'], L.F, (s['ex'] or {}).get('token'), (s['ex'] or {}).get('line ends at')))
+        elif s['type'] == 'eol':
+            msg = ('the end-of-list token that terminates the copied tokens of a directive\'s line takes its position, on all %d explored paths, from a token BEHIND the end of the line '
+                   '(%s; it is a copy of the first token of the next line): a diagnostic raised at the end of the operand list -- a missing `)` in `#if (1`, a missing operand of `#line` -- '
+                   'names the line, after the last directive of a header the file, of whatever follows' % (s['n'], (s['ex'] or {}).get('token')))
         else:
             msg = ('the token a `#%s` directive stores in %s, which a later diagnostic is located at, is on all %d explored paths a token BEHIND the end of the directive\'s line (%s): '
                    'that diagnostic will name the line after the directive' % (s['directive'], s['what'], s['n'], (s['ex'] or {}).get('token')))
